@@ -34,6 +34,32 @@ HASH_ITER_TABLE = {
                                     "are assigned",
 }
 
+# what each reviewed function iterates (key / element types of the map or set): a second iteration over ANOTHER map
+# inside a reviewed function is a new site
+HASH_ITER_TYPES = {
+    "Arena::allocated_summary": [r"HashMap<values::layout::heap::repr::AValueHeader, "],
+    "Assert::execute": [r"HashMap<string::String, environment::modules::FrozenModule>"],
+    "AstModule as AstModuleTypecheck::typecheck": [r"HashMap<eval::compiler::scope::BindingId, typing::ty::Ty>"],
+    "BazelContext::check": [r"HashMap<string::String, starlark_lsp::server::LspUri>"],
+    "BcPairsProfileData as AddAssign::add_assign": [r"HashMap<\[eval::bc::opcode::BcOpcode; 2\], "],
+    "BcPairsProfileData::gen_csv": [r"HashMap<\[eval::bc::opcode::BcOpcode; 2\], "],
+    "CodeMaps::add_all": [r"HashMap<codemap::CodeMapId, codemap::CodeMap>"],
+    "Context::check": [r"HashMap<string::String, starlark_lsp::server::LspUri>"],
+    "LintSuppressionsBuilder::update_lint_suppressions": [r"HashSet<string::String>"],
+    "State::branch": [r"HashMap<&str, \(analysis::names::Assigned, HashSet<starlark_syntax::codemap::Span>\)>",
+                      r"HashSet<&str>", r"HashSet<starlark_syntax::codemap::Span>"],
+    "State::use_ident": [r"HashSet<starlark_syntax::codemap::Span>"],
+    "VTABLE_REGISTRY::{closure#0}": [r"HashMap<pagable::vtable_registry::DeserTypeId, "],
+    "typecheck::solve_bindings": [r"HashMap<eval::compiler::scope::BindingId, typing::ty::Ty>"],
+}
+
+
+def _iterated_type(full):
+    x = re.sub(r"std::collections::|std::hash::|std::", "", full)
+    m = re.search(r"(HashMap|HashSet)(::)?<(.*)>(::\w+| as )", x)
+    return (m.group(1) + "<" + m.group(3) + ">") if m else x
+
+
 ORDER_TRAITS = re.compile(r"std::cmp::(Ord|PartialOrd)$|std::fmt::Display$")
 IDENTITY_TYPES = re.compile(r"^values::layout::(identity::ValueIdentity|pointer::RawPointer|heap::heap_type::FrozenHeapPtr)\b")
 
@@ -107,6 +133,12 @@ def r1(ctx, F, rule="C14.R1", only_files=None, table=None):
             continue
         n_rand += 1
         reason = reviewed(F, table, s)
+        if reason is not None and table is HASH_ITER_TABLE:
+            # the review covers a particular map; resolve a renamed function to its table entry for the types
+            ent = s if s in HASH_ITER_TYPES else next((k for k, v in table.items() if v == reason and k in HASH_ITER_TYPES), None)
+            ty = _iterated_type(c.full)
+            if ent is not None and not any(re.search(p, ty) for p in HASH_ITER_TYPES[ent]):
+                reason = None
         ctx.check(reason is not None, rule, key, "reviewed: " + (reason or ""),
                   "`%s` iterates a std HashMap/HashSet with the randomly seeded default hasher (`%s`) and is not a "
                   "reviewed order-insensitive site: the iteration order differs between processes and can leak into "
